@@ -81,8 +81,9 @@ def prefix_name_cases():
     """port names that are prefixes of each other, with the multi-client port the longer, the shorter and the middle one"""
     out = []
     names = ['toast', 'toaster', 'toasterExclusive']
-    for mcname in names:
-        ports = [[n, ['IArb'] if n == mcname else ['ICtl'], 'provides', False] for n in names] + \
+    for mcname, same in [(n, False) for n in names] + [('toaster', True), ('toasterExclusive', True)]:
+        # same=True: every provides port has the multi-client interface (claim/release events exist on all of them)
+        ports = [[n, ['IArb'] if (n == mcname or same) else ['ICtl'], 'provides', False] for n in names] + \
                 [['hal', ['ICtl'], 'requires', False], ['hal2', ['ICtl'], 'requires', False]]
         file = [['extern', ['Int'], 'int'],
                 ['ns', ['My'], [['itf', ['IArb'], [['enum', ['Result'], ['Ok', 'No']]],
